@@ -49,16 +49,6 @@ Proof.
   apply H2. rewrite <- Hy. apply in_map. exact Hin.
 Qed.
 
-Lemma NoDup_app_l {A} (a b : list A) : NoDup (a ++ b) -> NoDup a.
-Proof. induction a as [|x a IH]; cbn [app]; intros H; [constructor|]. inversion H; subst. constructor; [intros Hin; apply H2; apply in_or_app; left; exact Hin|apply IH; assumption]. Qed.
-Lemma NoDup_app_r {A} (a b : list A) : NoDup (a ++ b) -> NoDup b.
-Proof. induction a as [|x a IH]; cbn [app]; intros H; [exact H|]. inversion H; subst. apply IH. assumption. Qed.
-Lemma NoDup_app_disj {A} (a b : list A) x : NoDup (a ++ b) -> In x a -> In x b -> False.
-Proof.
-  induction a as [|y a IH]; cbn [app]; intros H Ha Hb; [destruct Ha|]. inversion H; subst.
-  destruct Ha as [->|Ha]; [apply H2; apply in_or_app; right; exact Hb|]. apply IH; assumption.
-Qed.
-
 (* ------------------------------------------------------------------------------------------ one array *)
 Lemma elem_inst_inv d x ps knm el : elem_inst d x ps knm = Ok el ->
   i_name el = snd knm /\ i_n el = 0 /\ i_of el = i_of x /\
